@@ -23,11 +23,13 @@ pub fn check(c: bool, why: &'static str) -> Result<(), &'static str> {
 pub mod merkle;
 pub mod c04;
 pub mod c05;
+pub mod c06;
 pub mod c07;
 pub mod c08;
 pub mod c09;
 pub mod c10;
 pub mod c11;
+pub mod c12;
 pub mod c13;
 pub mod c15;
 #[cfg(feature = "recursive")]
